@@ -19,7 +19,7 @@ def make_scenarios(ctx, count, nops):
         keys = rng.sample([(m, g) for m in macs for g in gens], rng.randint(20, 24))
         style = rng.choice(["fill", "churn", "expiry"])
         ops = []
-        now = rng.choice([1, 999, 1000, 5000, 123456])
+        now = rng.choice([1, 999, 1000, 5000, 123456, (1 << 32) - 70000, 4294967296000 - 100000, 4294967296000 - 75000, 4294967296000 - 10000, 1 << 45])
         subsec = rng.random() < 0.3          # some sequences move the clock by arbitrary milliseconds
         s = H.Scenario("t%d" % i)
         s.iface(0, mtu=1500, mac=G.rand_mac(rng))
